@@ -89,6 +89,10 @@ func TestC06_History(t *testing.T) {
 		}
 		defer n.Close()
 		a := sim.NewActor(n)
+		if rapid.IntRange(0, 3).Draw(t, "lockupHeavy") == 0 {
+			a.StickyPct = 70 // most block rewards go to one contract-held lockup tranche (overwrites of lockup records)
+			stats.Label(part, "lockup_heavy")
+		}
 		dump := func() any { return map[string]any{"replay_backend": other, "history": a.Log} }
 		zone := n.Nodes[sim.Zone]
 		allKinds := map[string]bool{}
